@@ -94,6 +94,9 @@ type IOp struct {
 }
 
 type IndexCase struct {
+	// Proxy: the index server under test does not serve a directory but another index server (RemoteHTTPIndex over a
+	// second handler over the directory): `desync index-server -s http://...`
+	Proxy    bool   `json:"proxy,omitempty"`
 	Writable bool   `json:"writable"`
 	Retry    int    `json:"retry"`
 	Pre      []IPre `json:"pre"`
@@ -112,6 +115,7 @@ func genIdxSpec(t *rapid.T) IdxSpec {
 func genIndex(t *rapid.T) IndexCase {
 	var c IndexCase
 	c.Writable = rapid.IntRange(0, 3).Draw(t, "writable") > 0
+	c.Proxy = rapid.IntRange(0, 2).Draw(t, "proxy") == 0
 	c.Retry = rapid.IntRange(0, 2).Draw(t, "retry")
 	n := rapid.IntRange(1, len(indexNames)).Draw(t, "nnames")
 	for i := 0; i < n; i++ {
@@ -182,7 +186,19 @@ func runIndex(c IndexCase) (o hx.Outcome) {
 	if err != nil {
 		panic(err)
 	}
-	srv := startServer(desync.NewHTTPIndexHandler(is, c.Writable, ""), true)
+	var served desync.IndexStore = is
+	if c.Proxy {
+		inner := startServer(desync.NewHTTPIndexHandler(is, c.Writable, ""), true)
+		defer inner.Close()
+		up, err := desync.NewRemoteHTTPIndexStore(mustURL(inner), clientOptions(false, false, 0))
+		if err != nil {
+			panic(err)
+		}
+		defer up.Close()
+		served = up
+		o.Class("index:upstream-is-an-index-server")
+	}
+	srv := startServer(desync.NewHTTPIndexHandler(served, c.Writable, ""), true)
 	defer srv.Close()
 	retry := c.Retry
 	if retry < 0 || retry > 4 {
